@@ -412,6 +412,9 @@ def run(ctx):
     # ------------------------------------------------------------------ R04.13 (generic, scoped to this property's anchors)
     sm.rule_named_plumbing(ctx, mir, "C04", "R04.13", floor=77)
 
+    # ------------------------------------------------------------------ R04.14
+    rule_hash_codes(ctx, mir, idx)
+
     ctx.not_decided += ["correctness of the compiled program (prefix sharing, jumps, recovery points) against CSS semantics for all selector sets x documents: a behavioural equivalence out of reach of this technique",
                         "the arithmetic of NthChild::has_index (value-level; e.g. sign handling for negative steps)"]
     return ("Structural clauses only: validator/translator agreement over the selectors crate's Component, Combinator and NthType variants, the "
@@ -511,3 +514,64 @@ def rule_absolute_indices(ctx, mir, rid="R04.7"):
             if m:
                 r.violate(key, f"{f.key}: `enumerate` is applied after `{m.group(1)}` ({chain[:100]}): the indices are relative to the remaining items, so ids / positions computed from them are shifted (wrong handler or stack entry)", f.loc())
 
+
+
+def rule_hash_codes(ctx, mir, idx, rid="R04.14"):
+    """E-PEVAL: LocalNameHash::update evaluated over all 256 bytes from the current MIR."""
+    from ..mireval import PEval
+    r = ctx.rule(rid, "the element-name hash is a faithful code of ASCII names: LocalNameHash::update, evaluated for every byte value, raises no arithmetic assertion, maps a-z/A-Z to 26 distinct 5-bit codes independent of case, 1-6 to 6 further distinct codes, and every other byte to the invalid hash; each Tag constant equals the hash of its lower-cased name under that table", "E-PEVAL (MIR partial evaluation over the byte domain) + E-AST", floor=300)
+    f = mir.fn("LocalNameHash::update")
+    pe = PEval(f)
+    H = {"local": 1, "proj": ["*", {"f": "0", "of": "html::local_name::LocalNameHash"}]}
+    if f.rec["locals"][2] != "u8":
+        raise EngineError(rid + ": LocalNameHash::update no longer takes a byte")
+    EMPTY = (1 << 64) - 1
+    code = {}
+    for ch in range(256):
+        key = "byte:%d" % ch
+        r.inst(key, nontrivial=(ch in (0x30, 0x31, 0x36, 0x37, 0x41, 0x5a, 0x61, 0x7a)))
+        for seed in ([(H, 0)], []):
+            fails, paths, complete = pe.run({2: ch}, seed)
+            if not complete:
+                raise EngineError(rid + ": LocalNameHash::update could not be evaluated completely (loop or unknown terminator)")
+            for fl in fails:
+                r.violate(key + "|assert", f"LocalNameHash::update({ch!r} = {chr(ch)!r}): {fl} - a panic in builds with overflow checks, a wrapped value otherwise", f.loc())
+            if seed and not fails:
+                outs = set(p.env.get(pe.pkey(H)) for p in paths)
+                if len(outs) != 1 or None in outs:
+                    raise EngineError(rid + ": the stored hash is not a function of the byte alone (%r)" % (outs,))
+                code[ch] = outs.pop()
+    if len(code) == 256:
+        letters = {c: code[c] for c in range(0x61, 0x7b)}
+        digits = {c: code[c] for c in range(0x31, 0x37)}
+        r.inst("table", sample={"letters": {chr(k): v for k, v in letters.items()}, "digits": {chr(k): v for k, v in digits.items()}})
+        valid = {**letters, **digits}
+        if any(v == EMPTY or v >= 32 for v in valid.values()) or len(set(valid.values())) != len(valid):
+            r.violate("table|injective", f"the per-character codes are not 32 distinct 5-bit values: {dict((chr(k), v) for k, v in valid.items())}: different names would share a hash (the VM and the tree-builder tables compare hashes)", f.loc())
+        for c in range(0x41, 0x5b):
+            if code[c] != code[c + 32]:
+                r.violate("table|case:" + chr(c), f"{chr(c)!r} and {chr(c + 32)!r} hash differently: element names would compare case-sensitively", f.loc())
+        others = [c for c in range(256) if c not in valid and not (0x41 <= c <= 0x5a) and code[c] != EMPTY]
+        if others:
+            r.violate("table|others", f"bytes {[chr(c) for c in others[:8]]} get a code although the hash alphabet is [a-z1-6]: names containing them collide with other names", f.loc())
+        # Tag constants
+        def h_of(name):
+            h = 0
+            for ch in name.lower().encode():
+                if h >> 59:
+                    return EMPTY
+                v = code[ch]
+                if v == EMPTY:
+                    return EMPTY
+                h = (h << 5) | v
+            return h
+        e = idx.enum("Tag")
+        for v in e["variants"]:
+            d = re.sub(r"[_\s]|u64$", "", v.get("discriminant") or "")
+            key = "Tag::" + v["name"]
+            r.inst(key, nontrivial=False)
+            if not d.isdigit():
+                raise EngineError(rid + ": Tag::%s has no literal discriminant" % v["name"])
+            if int(d) != h_of(v["name"]):
+                r.violate(key, f"Tag::{v['name']} = {int(d)} but the hash of \"{v['name'].lower()}\" is {h_of(v['name'])}: the tag is never recognised (void list, text-mode switches, foreign-content tables)", "src/html/tag.rs")
+        r.count("tag_constants", len(e["variants"]))
